@@ -97,7 +97,8 @@ func vxBuildGraph(bufsize int) *vxGraph {
 		g.up["C"] = []string{"A", "B"}
 		g.count["C"] = g.count["A"] + g.count["B"]
 	}
-	g.hasD = vxChoice("withD", 2) == 1
+	small := vxGet("small") == 1 // reduced family for deeper schedule exploration
+	g.hasD = !small && vxChoice("withD", 2) == 1
 	if g.hasD {
 		g.dLeaf = vxChoice("D.hasOut", 2) == 0
 		var d *scipipe.Process
@@ -130,7 +131,7 @@ func vxBuildGraph(bufsize int) *vxGraph {
 		g.count["D"] = n
 	}
 	// optional: F (file -> parameter converter) fed by A or B, and E consuming its parameters
-	if vxChoice("withF", 2) == 1 {
+	if !small && vxChoice("withF", 2) == 1 {
 		f := vxNewFileToParam(wf, "F")
 		fu := []string{"A", "B"}[vxChoice("F.in", 2)]
 		f.InPort("in").From(g.procs[fu].Out("out"))
